@@ -13,6 +13,14 @@ headers and the json / form bodies belong to C30), `httping.normalizeHostPort`,
 `httping.updateQargsQuery`, and from `Respondent.parseHead/parseBody` only the rule
 "how many body bytes does this response need" (method HEAD, 1xx/204/304 ⇒ none).
 
+A redirect that cannot be followed (fix `D32a`): `redirect` raises `httping.InvalidURL` when the Location is
+missing or empty, when `urljoin` / `urlsplit` / `.port` raise `ValueError`, when the authority has no host (fix `D34f`), when the port text inside the host is
+not a number, and when the host does not resolve; `serviceResponse` catches it, takes the redirect off
+`.redirects` again and delivers the 3xx response itself with `errored` set — nothing is sent, the connection
+is kept (and `respondent.redirectant` is cleared, fix `D34f`, so that the next response is not taken for a redirect).  (Before `D32a` these left `serviceAll` as `AttributeError` / `ValueError` / `socket.gaierror`, with
+the 3xx response stuck in `.redirects` and the Patron `.waited` for ever.)  The refusal of an https → http
+redirect stays a `ValueError` that leaves `serviceAll`.
+
 Standard-library functions are **parameters** (`Std`): `urlsplit` (with the `hostname`,
 `port`, `geturl()` members the code uses), `urljoin`, `unquote`, `quote`, `quote_plus`,
 `unquote_plus`, and the DNS lookup behind `aioing.normalizeHost`.
@@ -94,14 +102,15 @@ structure Split where
   query : Str
   fragment : Str
   hostname : Option Str
-  /-- `.port`: `none` = the property raised `ValueError` -/
+  /-- `.port`: `none` = `urlsplit` itself or the `.port` property raised `ValueError` -/
   port : Option (Option Nat)
   geturl : Str
   deriving DecidableEq
 
 structure Std where
   urlsplit : Str → Split
-  urljoin : Str → Str → Str
+  /-- `none` = `urljoin` raised `ValueError` (unbalanced bracket in the authority, …) -/
+  urljoin : Str → Str → Option Str
   unquote : Str → Str
   quote : Str → Str            -- `quote(path)`, default safe `'/'`
   quotePlus : Str → Str
@@ -322,6 +331,8 @@ structure Rec where
   location : Option Str
   req : Snap
   body : List Nat := []
+  /-- `response['errored']`: set when the response is a redirect that could not be followed -/
+  errored : Bool := false
   deriving DecidableEq
 
 /-- an entry of the `.requests` deque (as put there by `Patron.request(method, path, qargs, body)`) -/
@@ -419,12 +430,19 @@ def locText (S : Std) (loc : Str) : Str :=
   let pr := partitionAt '?' loc
   if pr.2.1 then S.unquote pr.1 ++ ['?'] ++ pr.2.2 else S.unquote pr.1
 
+/-- `not splits.hostname`: `None` or empty -/
+def hostless (sp : Split) : Bool :=
+  match sp.hostname with
+  | none => true
+  | some h => h.isEmpty
+
 /-- from the split result to scheme / host / port / path / query -/
 def targetOfSplit (sp : Split) : Except Err Target :=
   match sp.port with
-  | none => .error .valueError
+  | none => .error .invalidURL          -- `ValueError` re-raised as `InvalidURL` (fix D32a)
   | some port =>
-    match normalizeHostPort sp.hostname (port.map (fun n => (n : Int)))
+    if hostless sp then .error .invalidURL   -- `if not hostname: raise ValueError` → `InvalidURL` (fix D34f)
+    else match normalizeHostPort sp.hostname (port.map (fun n => (n : Int)))
         (if schemeOf sp.scheme = sHttps then 443 else 80) with
     | .error e => .error e
     | .ok hp =>
@@ -436,8 +454,12 @@ def targetOfSplit (sp : Split) : Except Err Target :=
 /-- first half of `Patron.redirect`: from the Location header to scheme/host/port/path/query -/
 def parseLocation (S : Std) (r : Requester) (location : Option Str) : Except Err Target :=
   match location with
-  | none => .error .attributeError
-  | some loc => targetOfSplit (S.urlsplit (S.urljoin (baseUrl r) (locText S loc)))
+  | none => .error .invalidURL          -- `if not location: raise InvalidURL` (fix D32a)
+  | some loc =>
+    if loc.isEmpty then .error .invalidURL
+    else match S.urljoin (baseUrl r) (locText S loc) with
+      | none => .error .invalidURL      -- `ValueError` re-raised as `InvalidURL` (fix D32a)
+      | some u => targetOfSplit (S.urlsplit u)
 
 /-- does `redirect` replace the connection? (`ha != self.connector.ha or scheme != self.requester.scheme`) -/
 def mustReconnect (p : Patron) (ip : Str) (t : Target) : Bool :=
@@ -464,7 +486,7 @@ def redirect (S : Std) (p : Patron) : Out :=
     | .error e => ⟨p, [], some e⟩
     | .ok t =>
       match S.resolve t.hostname with
-      | none => ⟨p, [], some .gaiError⟩
+      | none => ⟨p, [], some .invalidURL⟩   -- `socket.error` re-raised as `InvalidURL` (fix D32a)
       | some ip => follow S p t ip
 
 /-- body bytes the `Respondent` waits for before the response is complete -/
@@ -475,13 +497,26 @@ def neededBody (respMethod : Str) (r : Resp) : Nat :=
 def recOf (p : Patron) (r : Resp) : Rec :=
   { status := r.status, location := r.location, req := snapOf p.req, body := r.body }
 
+/-- the response record delivered for a redirect that could not be followed -/
+def erroredRec (p : Patron) (r : Resp) : Rec := { recOf p r with errored := true }
+
+/-- the redirect branch of `Patron.serviceResponse`:
+`self.redirects.append(copy.copy(response)); try: self.redirect() except httping.InvalidURL: …` -/
+def tryRedirect (S : Std) (p : Patron) (r : Resp) : Out :=
+  let o := redirect S { p with redirects := p.redirects ++ [recOf p r] }
+  if o.err = some .invalidURL then
+    -- the appended redirect is popped again and the 3xx response itself is delivered, flagged `errored`,
+    -- carrying the redirects collected before it
+    ⟨{ o.p with responses := o.p.responses ++ [(erroredRec p r, p.redirects)], redirects := [], waited := false },
+     o.es ++ [Effect.deliver], none⟩
+  else o
+
 /-- `Patron.serviceResponse` for one response message arriving while `.waited` -/
 def serviceResponse (S : Std) (p : Patron) (r : Resp) : Out :=
   if !p.waited then ⟨p, [], some .outOfModel⟩     -- bytes nobody waits for stay in the buffer: not modelled
   else if r.blen < neededBody p.respMethod r then ⟨p, [Effect.stall], none⟩
   else if neededBody p.respMethod r < r.blen then ⟨p, [], some .outOfModel⟩
-  else if p.redirectable && redirectStatus r.status then
-    redirect S { p with redirects := p.redirects ++ [recOf p r] }
+  else if p.redirectable && redirectStatus r.status then tryRedirect S p r
   else
     ⟨{ p with responses := p.responses ++ [(recOf p r, p.redirects)], redirects := [], waited := false },
      [Effect.deliver], none⟩
@@ -516,19 +551,29 @@ def run (S : Std) : Patron → List Op → Out
 /-- a connector handed to `Patron(connector=…)`: (is it a `ClientTls`, its `.hostname`, its `.port`) -/
 abbrev Connector := Bool × Str × Int
 
+/-- the scheme / TLS / default-port decision of `Patron.__init__`: a connector dictates them (and refuses a
+different scheme with `ValueError`), otherwise `https` means TLS and anything else — also no scheme — is `http` -/
+def schemeFor (connector : Option Connector) (scheme0 : Str) : Except Err (Str × Bool × Int) :=
+  match connector with
+  | some (true, _, _) => if !scheme0.isEmpty && scheme0 ≠ sHttps then .error .valueError else .ok (sHttps, true, 443)
+  | some (false, _, _) => if !scheme0.isEmpty && scheme0 ≠ sHttp then .error .valueError else .ok (sHttp, false, 80)
+  | none => if scheme0 = sHttps then .ok (sHttps, true, 443) else .ok (sHttp, false, 80)
+
+/-- the freshly constructed and opened Patron -/
+def newPatron (c : Conn) (h : Str) (pt : Int) (scheme : Str) (redirectable : Bool) : Patron × List Effect :=
+  ({ conn := c,
+     req := { hostname := h, port := pt, scheme := scheme, method := sGET, path := sSlash,
+              qargs := [], fragment := [], body := [] },
+     respMethod := sGET, redirects := [], responses := [], waited := false,
+     redirectable := redirectable, queue := [] }, [Effect.open c])
+
 /-- `Patron(path=url, hostname=…, port=…, scheme=…, connector=…)` with the other defaults, then `.open()`.
 `url` is the `path` argument (default `/`): scheme, host and port found in it take priority.  With a caller-supplied
 connector the scheme is dictated by its type and the requester takes the connector's host name and port. -/
 def initPatron (S : Std) (url hostname : Str) (port : Option Int) (scheme : Str) (connector : Option Connector)
     (redirectable : Bool) : Except Err (Patron × List Effect) :=
   let sp := S.urlsplit url
-  let scheme0 := asciiLower (if sp.scheme.isEmpty then scheme else sp.scheme)
-  let sd : Except Err (Str × Bool × Int) :=
-    match connector with
-    | some (true, _, _) => if !scheme0.isEmpty && scheme0 ≠ sHttps then .error .valueError else .ok (sHttps, true, 443)
-    | some (false, _, _) => if !scheme0.isEmpty && scheme0 ≠ sHttp then .error .valueError else .ok (sHttp, false, 80)
-    | none => if scheme0 = sHttps then .ok (sHttps, true, 443) else .ok (sHttp, false, 80)
-  match sd with
+  match schemeFor connector (asciiLower (if sp.scheme.isEmpty then scheme else sp.scheme)) with
   | .error e => .error e
   | .ok (scheme, secured, defaultPort) =>
     match sp.port with
@@ -542,17 +587,11 @@ def initPatron (S : Std) (url hostname : Str) (port : Option Int) (scheme : Str)
         match S.resolve hostname with
         | none => .error .gaiError
         | some ip =>
-          let mk (c : Conn) (h : Str) (pt : Int) : Patron × List Effect :=
-            ({ conn := c,
-               req := { hostname := h, port := pt, scheme := scheme, method := sGET, path := sSlash,
-                        qargs := [], fragment := [], body := [] },
-               respMethod := sGET, redirects := [], responses := [], waited := false,
-               redirectable := redirectable, queue := [] }, [Effect.open c])
           match connector with
-          | none => .ok (mk { ip := ip, port := port, tls := secured } hostname port)
+          | none => .ok (newPatron { ip := ip, port := port, tls := secured } hostname port scheme redirectable)
           | some (tls, chost, cport) =>
             match S.resolve chost with
             | none => .error .gaiError
-            | some cip => .ok (mk { ip := cip, port := cport, tls := tls } chost cport)
+            | some cip => .ok (newPatron { ip := cip, port := cport, tls := tls } chost cport scheme redirectable)
 
 end Ioflo.Redirect
